@@ -81,3 +81,15 @@ def normalise(calls):
             c = ",".join(f)
         out.append(c)
     return out
+
+
+NAME_PIECES = [b"_edge(", b"_heuristic(", b"_acyc_", b"_atom(", b"\"", b"\\", b",", b"(", b")", b"a", b"b", b"1", b"-2", b"sign", b"level", b"true", b"init", b" ", b"_", b"x\"y", b"\\\"", b"12345678901"]
+def fuzz_name(rng):
+    """a symbol name assembled from the pieces the helper-predicate matchers react to (quotes, backslashes, parentheses, commas)"""
+    return b"".join(rng.choice(NAME_PIECES) for _ in range(rng.randint(1, 9))).replace(b"\n", b"")
+def fuzz_symtab(rng, inc=False):
+    """a smodels text whose symbol table holds fuzzed names of varying lengths (a later, shorter name follows a longer one)"""
+    names = [fuzz_name(rng) for _ in range(rng.randint(1, 6))]
+    if rng.random() < 0.5: names.sort(key=len, reverse=True)
+    body = b"".join(b"%d %s\n" % (rng.randint(1, 6), n) for n in names)
+    return (b"90 0\n" if inc else b"") + b"1 2 0 0\n0\n" + body + b"0\nB+\n0\nB-\n0\n1\n"
